@@ -337,7 +337,42 @@ func factsDepth(cond ssa.Value, truth bool, depth int) []Fact {
 			if !truth {
 				op = negOp[op]
 			}
-			return []Fact{{Op: op, X: c.X, Y: c.Y}}
+			out := []Fact{{Op: op, X: c.X, Y: c.Y}}
+			// an enum-like local (a phi of integer constants) compared with a constant: the
+			// comparison holds only for some of the incoming edges, and what all of those edges
+			// have established holds as well (`kind := A; switch { case p: kind = B ... }; if kind == A`)
+			for _, pr := range [][2]ssa.Value{{c.X, c.Y}, {c.Y, c.X}} {
+				ph, isPhi := pr[0].(*ssa.Phi)
+				k, isK := ConstInt(pr[1])
+				if !isPhi || !isK || len(ph.Edges) < 2 {
+					continue
+				}
+				o := op
+				if pr[0] != c.X {
+					o = swapOp[op]
+				}
+				nConst := 0
+				var result []Fact
+				first := true
+				for i, e := range ph.Edges {
+					if ek, isC := ConstInt(e); isC {
+						nConst++
+						if !cmpHolds(o, ek, k) {
+							continue
+						}
+					}
+					fs := upFacts(ph.Block().Preds[i], ph.Block(), depth+1)
+					if first {
+						result, first = fs, false
+					} else {
+						result = intersectFacts(result, fs)
+					}
+				}
+				if nConst >= 2 {
+					out = append(out, result...)
+				}
+			}
+			return out
 		}
 	case *ssa.Phi:
 		// edges that could produce `truth`
@@ -373,6 +408,24 @@ func factsDepth(cond ssa.Value, truth bool, depth int) []Fact {
 		return result
 	}
 	return []Fact{{V: cond, Truth: truth}}
+}
+
+func cmpHolds(op token.Token, a, b int64) bool {
+	switch op {
+	case token.EQL:
+		return a == b
+	case token.NEQ:
+		return a != b
+	case token.LSS:
+		return a < b
+	case token.LEQ:
+		return a <= b
+	case token.GTR:
+		return a > b
+	case token.GEQ:
+		return a >= b
+	}
+	return true
 }
 
 // upFacts collects the branch facts on the unique-predecessor chain leading to block p,
@@ -764,6 +817,30 @@ func ErrValuesOfCall(c *ssa.Call) []ssa.Value {
 	return out
 }
 
+// storedJustBefore: ld reads an address that the same block stored to earlier, with no call,
+// send or other store through a pointer in between; returns the stored value.
+func storedJustBefore(ld *ssa.UnOp) ssa.Value {
+	var last ssa.Value
+	for _, in := range ld.Block().Instrs {
+		if in == ssa.Instruction(ld) {
+			return last
+		}
+		switch x := in.(type) {
+		case *ssa.Store:
+			if x.Addr == ld.X {
+				last = x.Val
+			}
+		case ssa.CallInstruction:
+			if _, isDefer := in.(*ssa.Defer); !isDefer {
+				last = nil
+			}
+		case *ssa.Send, *ssa.Select:
+			last = nil
+		}
+	}
+	return nil
+}
+
 // FlowsFrom reports whether v is, possibly through phis / type changes / interface boxing, one
 // of the values in set (used for "this err variable carries the result of that call").
 func FlowsFrom(v ssa.Value, set map[ssa.Value]bool) bool {
@@ -798,6 +875,12 @@ func FlowsFrom(v ssa.Value, set map[ssa.Value]bool) bool {
 						if rec(st.Val) {
 							return true
 						}
+					}
+				} else if _, isFv := x.X.(*ssa.FreeVar); isFv {
+					// a captured variable written and read back in the same block with no call
+					// in between (`v, err = f(); if err != nil` where err belongs to the enclosing function)
+					if sv := storedJustBefore(x); sv != nil && rec(sv) {
+						return true
 					}
 				}
 			}
